@@ -32,7 +32,7 @@ import z3
 from pyvc import frontend
 from pyvc.builtins_model import default_builtins
 from pyvc.graphdom import COMPACT, BSHAPE, CLAYOUT, NDIM, RFUN, SHAPE0, Heap, NdModel, TensorModel, graph_np
-from pyvc.interp import Config, Ctx, ExcInst, Interp, LoopSpec, SObj, SRef, SSeq, SymRaise, explore
+from pyvc.interp import Config, Ctx, ExcInst, Interp, LoopSpec, SObj, SRef, SSeq, SymRaise, Unsupported, explore
 
 OB = "mygrad.operation_base"
 TB = "mygrad.tensor_base"
@@ -64,6 +64,56 @@ class State:
         self.opsne = hp[("Tensor", "_ops_nonempty")]
         self.shape, self.dtype, self.base, self.layout, self.val = (hp[("ndarray", f)] for f in ("shape", "dtype", "base", "layout", "val"))
         self.top = heap.cur_top
+
+
+_OVERRIDES_CACHE = {}
+
+
+def class_attr_overrides(name):
+    """All literal values that the class attribute `name` takes in Operation or any (transitive) subclass, by AST scan
+    of the package: `self.<name>` of an abstract operation may be any of them (behavioural subtyping)."""
+    if name in _OVERRIDES_CACHE:
+        return _OVERRIDES_CACHE[name]
+    import ast
+
+    classes = {}
+    for modname in frontend.iter_package_modules("mygrad"):
+        try:
+            m = frontend.load_module(modname)
+        except Exception:
+            continue
+        for cname, node in m.defs.items():
+            if isinstance(node, ast.ClassDef):
+                classes[cname] = node
+    ops = {"Operation"}
+    changed = True
+    while changed:
+        changed = False
+        for cname, node in classes.items():
+            bases = [b.id if isinstance(b, ast.Name) else getattr(b, "attr", None) for b in node.bases]
+            if cname not in ops and any(b in ops for b in bases):
+                ops.add(cname)
+                changed = True
+    vals, unknown = [], False
+    for cname in sorted(ops):
+        node = classes.get(cname)
+        if node is None:
+            continue
+        for st in node.body:
+            tgt = None
+            if isinstance(st, ast.Assign) and len(st.targets) == 1 and isinstance(st.targets[0], ast.Name):
+                tgt, val = st.targets[0].id, st.value
+            elif isinstance(st, ast.AnnAssign) and isinstance(st.target, ast.Name) and st.value is not None:
+                tgt, val = st.target.id, st.value
+            if tgt == name:
+                try:
+                    v = ast.literal_eval(val)
+                    if v not in vals:
+                        vals.append(v)
+                except Exception:
+                    unknown = True
+    _OVERRIDES_CACHE[name] = (vals, unknown)
+    return vals, unknown
 
 
 def harness(where_kind):
@@ -153,6 +203,22 @@ def harness(where_kind):
         op = SObj(OpCls, label="op")
         op.fields["variables"] = SSeq(n, lambda i: SRef("Tensor", z3.Select(VARS, to_int(i))), "tuple", "variables")
         op.fields["where"] = where
+
+        def abstract_class_attr(interp_, name):
+            # a data attribute of the class read through `self`: any value a subclass gives it
+            from pyvc.interp import _MISSING, FuncValue, PropertyValue, StaticMethod, ClassMethod
+
+            v, _o = OpCls.lookup(interp_, name)
+            if v is _MISSING or isinstance(v, (FuncValue, PropertyValue, StaticMethod, ClassMethod)) or name.startswith("__"):
+                return _MISSING
+            vals, unknown = class_attr_overrides(name)
+            if unknown or not vals:
+                raise Unsupported(f"class attribute {name} has a non-literal override in some Operation subclass")
+            i = ctx.choose(len(vals), f"override of {name}")
+            ctx.notes.append(f"self.{name} = {vals[i]!r}")
+            return vals[i]
+
+        op.attr_hook = abstract_class_attr
         calls = {"k": None, "kind": None}
 
         def backward_var_contract(interp_, args, kwargs):
@@ -338,7 +404,7 @@ def obligations(tier="quick"):
                 continue
             k += 1
             for o in r.ctx.obligations:
-                o.name = f"{o.name}.p{k}"
+                o.name = f"{o.name}.p{k}" if "[where=" in o.name else f"{o.name}[where={wk}].p{k}"
                 out.append(o)
         info["paths"] += k
         if k == 0:
